@@ -194,4 +194,69 @@ def r4_action_committed(ctx):
         r.check(a[0] == "param" and "ProposerAction" in apa.locals[a[1]]["ty"], "apply/arg", "forwards the action", "collect is called with %s" % sig(a)[:60])
 
 
-RULES = [r1_header_gate, r2_result_provenance, r3_to_block, r4_action_committed, shared]
+# which activation predicate each stage of the state machine consults (owner function -> predicates), and which height constant each predicate tests
+TIP_USES = {
+    "melstf::state::SealedState::next_unsealed": {"tip_906"},
+    "melstf::state::UnsealedState::apply_tip_909": {"tip_909a"},
+    "melstf::state::UnsealedState::collect_proposer_action_fee": {"tip_906"},
+    "melstf::state::UnsealedState::seal": {"tip_901", "tip_909"},
+    "melstf::state::UnsealedState::transactions_root_hash": {"tip_908"},
+    "melstf::state::applytx::apply_tx_batch_impl": {"tip_906"},
+    "melstf::state::applytx::handle_faucet_tx": {"tip_906"},
+    "melstf::state::melmint::create_builtins": {"tip_902"},
+    "melstf::state::melmint::process_deposits_for_single_pool": {"tip_906"},
+    "melstf::state::melmint::process_pegging": {"tip_902"},
+    "melstf::state::melmint::process_swaps_for_single_pool": {"tip_906"},
+    "melstf::state::melmint::process_withdrawals_for_single_pool": {"tip_906"},
+    "melstf::genesis::GenesisConfig::realize": {"tip_906"},
+}
+TIP_CONSTS = {"tip_901": "TIP_901_HEIGHT", "tip_902": "TIP_902_HEIGHT", "tip_906": "TIP_906_HEIGHT", "tip_908": "TIP_908_HEIGHT", "tip_909": "TIP_909_HEIGHT", "tip_909a": "TIP_909A_HEIGHT"}
+
+
+def r5_activation_table(ctx):
+    r = ctx.rule("R5", "every stage consults the activation predicate of its own TIP, and every predicate tests its own height constant: the same transactions and block are "
+                       "judged by the same rules on every node at every height", positional=False)
+    prog = ctx.prog
+    uses = {}
+    for b in prog.bodies:
+        if b.crate != "melstf" or b.kind == "Promoted":
+            continue
+        for bi, t in b.calls():
+            n = mir.callee_name(t)
+            if "UnsealedState::tip_9" in n and not t.get("exp"):
+                own = b
+                while own.kind == "Closure" and own.parent in prog.by_id:
+                    own = prog.by_id[own.parent]
+                uses.setdefault(getattr(own, "alias_of", None) or own.nname, {}).setdefault(n.split("::")[-1], b.where(bi))
+    r.floor("stages consulting a TIP predicate", len(uses), 10)
+    for own, exp in sorted(TIP_USES.items()):
+        got = set(uses.get(own, {}))
+        short = own.split("::")[-1]
+        if got == exp:
+            r.ok("uses/%s" % short, "%s consults %s" % (short, sorted(exp)))
+            continue
+        lost, new = exp - got, got - exp
+        if lost and new and len(got) == len(exp):
+            # same number of predicates, one exchanged for another: a substitution
+            r.violation("uses/%s" % short, "%s consults %s where %s is the activation rule of that stage: between the two heights the stage runs under the wrong rule set"
+                        % (short, sorted(new), sorted(lost)), uses[own][sorted(new)[0]])
+        else:
+            r.undecided("uses/%s" % short, "%s consults %s (reviewed: %s): moved or restructured, not decided" % (short, sorted(got), sorted(exp)))
+    for own in sorted(set(uses) - set(TIP_USES)):
+        r.undecided("uses/%s" % own.split("::")[-1], "%s consults %s: not in the reviewed table" % (own.split("::")[-1], sorted(uses[own])))
+    for pred, const in sorted(TIP_CONSTS.items()):
+        pb = prog.body("melstf::state::UnsealedState::" + pred)
+        if pb is None:
+            r.undecided("const/" + pred, "predicate %s not found" % pred)
+            continue
+        tc = q.call_exprs(pb, "UnsealedState::tip_condition")
+        got = sorted({sig(e[2][1]).split("(")[0] for bi, e in tc})
+        if got == [const]:
+            r.ok("const/" + pred, "%s tests %s" % (pred, const))
+        elif len(got) == 1 and got[0].startswith("TIP_") and got[0].endswith("_HEIGHT"):
+            r.violation("const/" + pred, "%s tests %s instead of %s: the TIP activates at another TIP's height" % (pred, got[0], const), "%s:%s" % (pb.file, pb.line))
+        else:
+            r.undecided("const/" + pred, "%s tests %s: not decided" % (pred, got))
+
+
+RULES = [r1_header_gate, r2_result_provenance, r3_to_block, r4_action_committed, r5_activation_table, shared]
